@@ -123,6 +123,11 @@ class Repo:
             parsed.append((rel, modname, is_pkg, src, tree))
         if self.known_functions is not None:
             from . import inline
+            from . import localnames
+            lt = localnames.load_table()
+            if lt:
+                for rel, modname, is_pkg, src, tree in parsed:
+                    self.inline_log.extend(localnames.recover(tree, modname, lt))
             kg = inline.load_known_globals()
             if kg:
                 trees = [t for _, _, _, _, t in parsed]
